@@ -69,6 +69,9 @@ def rows : List Row := [
   ⟨"F03g", "ValueError", "helpers.py:get_double", ["floor", "ceiling", "round", "distinct-values", "index-of", "untypedAtomic", "substring", "subsequence"], 0⟩,
   ⟨"F03g", "ValueError", "datatypes/binary.py:validate", ["index-of", "distinct-values"], 0⟩,
   ⟨"F03g", "ValueError", "datatypes/datetime.py:fromstring", ["index-of", "distinct-values"], 0⟩,
+  ⟨"F03g", "ValueError", "datatypes/numeric.py:__new__", ["index-of", "distinct-values"], 0⟩,
+  ⟨"F03g", "ValueError", "datatypes/untyped.py:_operator", cmpOps ++ ["index-of", "distinct-values"], 0⟩,
+  ⟨"F03g", "AssertionError", "xpath2/_xpath2_constructors.py:evaluate__datetime_stamp_type", ["dateTimeStamp"], 0⟩,
   ⟨"F03g", "IndexError", "xpath30/xpath30_helpers.py:format_digits", ["format-integer"], 0⟩,
   ⟨"F03g", "TypeError", "xpath30/xpath30_helpers.py:roman_num", ["format-integer"], 0⟩,
   ⟨"F03g", "ValueError", "namespaces.py:get_expanded_name", ["instance", "castable", "cast", "treat"], 0⟩,
@@ -77,6 +80,8 @@ def rows : List Row := [
   -- site is the `evaluate__…` method of whichever function received it
   ⟨"F03k", "TypeError", ":evaluate__*", fnItemSyms, 0⟩,
   ⟨"F03k", "AttributeError", ":evaluate__*", fnItemSyms, 0⟩,
+  ⟨"F03k", "AttributeError", "xpath_tokens/base.py:adjust_datetime", fnItemSyms, 0⟩,
+  ⟨"F03k", "TypeError", "regex/patterns.py:translate_pattern", fnItemSyms, 0⟩,
   -- F03h: numeric / temporal overflow and runaway computations are not caught
   ⟨"F03h", "OverflowError", "xpath2/_xpath2_operators.py:evaluate__range_expression", ["to"], 0⟩,
   ⟨"F03h", "MemoryError", "xpath2/_xpath2_operators.py:evaluate__range_expression", ["to"], 0⟩,
@@ -85,6 +90,8 @@ def rows : List Row := [
   ⟨"F03h", "OverflowError", "xpath30/_xpath30_functions.py:evaluate__exp", ["exp"], 0⟩,
   ⟨"F03h", "OverflowError", "xpath30/_xpath30_functions.py:evaluate__pow", ["pow"], 0⟩,
   ⟨"F03h", "OverflowError", "xpath30/_xpath30_functions.py:evaluate__exp10", ["exp10"], 0⟩,
+  ⟨"F03h", "Hang", "xpath30/_xpath30_functions.py:evaluate__pow", ["pow"], 0⟩,
+  ⟨"F03h", "MemoryError", "xpath30/_xpath30_functions.py:evaluate__pow", ["pow"], 0⟩,
   ⟨"F03h", "Hang", "xpath30/_xpath30_functions.py:evaluate__exp10", ["exp10"], 0⟩,
   ⟨"F03h", "MemoryError", "xpath30/_xpath30_functions.py:evaluate__exp10", ["exp10"], 0⟩,
   ⟨"F03h", "OverflowError", "datatypes/datetime.py:_compare_durations", durTypes, 0⟩,
